@@ -127,6 +127,38 @@ pub fn main(args: &[String]) -> i32 {
         if samples.len() < 5 {
             samples.push(json!({"pattern": pat, "flags": flags, "xsd": xsd, "inputs": inputs, "repls": repls}));
         }
+        if mode == "threads" {
+            // a history on two shared Regex objects, executed from 4 threads (C18); the tracer hook logs every call
+            let pat2 = gen::gen_pattern(&mut rng, &p, false);
+            let mut hist = vec![
+                json!({"op":"compile","r":1,"pat":string_to_cps(&pat),"flags":string_to_cps(&flags),"x":!xsd}),
+                json!({"op":"compile","r":2,"pat":string_to_cps(&pat2),"flags":string_to_cps(&flags),"x":true}),
+            ];
+            let mut itn = 0;
+            for _ in 0..(6 + rng.below(8)) {
+                let r = 1 + rng.below(2);
+                let s = string_to_cps(rng.pick(&inputs[..]).as_str());
+                match rng.below(4) {
+                    0 => hist.push(json!({"op":"is_match","r":r,"s":s})),
+                    1 => hist.push(json!({"op":"replace","r":r,"s":s,"repl":string_to_cps(rng.pick(&repls[..]).as_str())})),
+                    k => {
+                        itn += 1;
+                        hist.push(json!({"op": if k == 2 {"tokenize"} else {"analyze"},"r":r,"it":itn,"s":s}));
+                        for _ in 0..rng.below(5) {
+                            hist.push(json!({"op":"next","it":itn}));
+                        }
+                    }
+                }
+            }
+            // interleave: a few more steps on iterators opened earlier
+            for it in 1..=itn {
+                for _ in 0..rng.below(4) {
+                    hist.push(json!({"op":"next","it":it}));
+                }
+            }
+            jobs.push(json!({"id":id,"hist":hist,"mode":"mt","pat_s":pat,"flags_s":flags,"x":!xsd,"calls":[]}));
+            continue;
+        }
         let mut j = job(id, &pat, &flags, !xsd, &inputs, &repls, false);
         if with_unopt {
             // the same source also compiled with every optimisation off, run through the same calls (C08)
